@@ -710,6 +710,33 @@ def r05_5(ctx: Ctx, closure: Dict[str, Func]) -> None:
     ctx.ok("R05.5", f"call graph of closure(read API): {len(graph)} functions, {sum(len(v) for v in graph.values())} edges, no cycle" if not cyc else "cycles found")
 
 
+def countdown_by_delivered(ctx: Ctx, closure: Dict[str, Func], rule: str) -> None:
+    """a loop that counts a declared size down while reading (`while remaining > 0: data = fp.read(min(block, remaining)); ...`) subtracts what
+    the read DELIVERED (`len(data)`), not what it asked for: a handle may hand out less than asked without being at its end (a multi-volume
+    file at a volume boundary, a chunked wrapper) - counting the request down skips the rest of the range, and test() calls an intact
+    archive damaged."""
+    n = 0
+    for fq, f in sorted(closure.items()):
+        for lp in [x for x in walk(f.node) if isinstance(x, ast.While)]:
+            lv = _loop_var(lp.test)
+            if lv is None or lv[1] != "down":
+                continue
+            rd = [a for st in lp.body for a in ast.walk(st) if isinstance(a, ast.Assign) and isinstance(a.value, ast.Call) and attr_tail(a.value) == "read"
+                  and a.value.args and not isinstance(a.value.args[0], ast.Constant) and isinstance(a.targets[0], ast.Name)]
+            if not rd or any(isinstance(c, ast.Call) and attr_tail(c) == "decompress" for st in lp.body for c in ast.walk(st)):
+                continue
+            got = {a.targets[0].id for a in rd}
+            for dec in [x for st in lp.body for x in ast.walk(st) if isinstance(x, ast.AugAssign) and isinstance(x.op, ast.Sub) and norm(x.target) == lv[0]]:
+                n += 1
+                v = q.expand_locals(f, dec.value, keep=sorted(got))
+                ok = isinstance(v, ast.Call) and dotted(v.func) == "len" and v.args and isinstance(v.args[0], ast.Name) and v.args[0].id in got
+                ctx.check(ok, rule, f, dec, f"{fq}: `{lv[0]}` is counted down by what the read delivered",
+                          f"`{norm(dec)}` counts the declared size down by the size ASKED for, not by `len(...)` of what read() returned: on a handle that delivers less than asked "
+                          "without being at its end (a multi-volume file at a volume boundary, a wrapper that reads in chunks) part of the range is never read - test() reports an "
+                          "intact archive as damaged", construct=f"countdown of {lv[0]} by the request")
+    ctx.floor(rule, n, 1, "countdowns of a declared size in reading loops")
+
+
 def r05_8(ctx: Ctx, closure: Dict[str, Func]) -> None:
     """declared sizes never drive a loop past the end of the file: (a) a loop of the read closure that counts a DECLARED size down while
     reading from the archive handle leaves (break / raise) when a read comes back short; (b) SevenZipDecompressor._read_data, which feeds
@@ -737,12 +764,30 @@ def r05_8(ctx: Ctx, closure: Dict[str, Func]) -> None:
                       f"{fq} counts the declared size `{lv[0]}` down in block steps and never looks at what read() returned: a pack size far beyond the end of the file "
                       "(2^45 in an 87-byte archive) keeps test() busy for millions of empty reads", construct=f"countdown read loop {lv[0]}")
     ctx.floor("R05.8", n, 1, "size-countdown read loops in the read closure")
+    countdown_by_delivered(ctx, closure, "R05.8")
     rd = ctx.prog.func("compressor", "SevenZipDecompressor._read_data")
     reads = [c for c in q.calls(rd) if attr_tail(c) == "read"]
     ctx.floor("R05.8", len(reads), 1, "archive reads in _read_data")
-    short = any(isinstance(t, ast.If) and any(isinstance(y, ast.Call) and dotted(y.func) == "len" for y in ast.walk(t.test)) and
-                any(isinstance(y, (ast.Assign, ast.AugAssign, ast.Raise)) for st in t.body for y in ast.walk(st)) for t in walk(rd.node)
-                if isinstance(t, ast.If) and isinstance(t.test, ast.Compare))
+    # path-complete: from the FIRST read of the call every way out passes a test of what was delivered against what was asked for
+    # (`len(data) < read_size`; not the test of the retry loop, which an EMPTY first read never enters), and its short arm corrects
+    # `input_size` (or raises).  A correction that sits inside the retry loop is never reached when the very first read is empty.
+    rcfg = cfg_of(rd.node)
+    first = min((q.node_for(rd, c) for c in reads), key=lambda nd: nd.lineno, default=None)
+    loops_ = [w for w in walk(rd.node) if isinstance(w, (ast.While, ast.For))]
+
+    def in_loop(x: ast.AST) -> bool:
+        return any(any(y is x for st in w.body for y in ast.walk(st)) or (isinstance(w, ast.While) and any(y is x for y in ast.walk(w.test))) for w in loops_)
+    short_tests = [t for t in rcfg.nodes if t.kind == "test" and not in_loop(t.ast) and any(isinstance(y, ast.Call) and dotted(y.func) == "len" for y in ast.walk(t.ast))
+                   and any(isinstance(y, ast.Compare) for y in ast.walk(t.ast))]
+    short = False
+    if first is not None and short_tests and rcfg.every_path_to_exit_passes(first, short_tests):
+        short = True
+        for t in short_tests:
+            arms = [e for e in t.succ if e.kind in ("true", "false")]
+            fixes = [n_ for n_ in rcfg.nodes if n_.kind == "stmt" and isinstance(n_.ast, (ast.Assign, ast.AugAssign)) and any(
+                isinstance(y, ast.Attribute) and y.attr == "input_size" and isinstance(y.ctx, ast.Store) for y in ast.walk(n_.ast))]
+            if not any(q.branch_always_raises(rcfg, e) or (fixes and rcfg.every_path_to_exit_passes(e, fixes)) for e in arms):
+                short = False
     ctx.check(short, "R05.8", rd, reads[0] if reads else rd.node, "_read_data accounts for a short read (end of file before the declared packed size)",
               "SevenZipDecompressor._read_data adds only the bytes the file delivered to `consumed` and never notices a short read: when the declared pack size reaches beyond the end "
               "of the file the packed input never counts as used up, the stall detection never fires and every decode loop (extract, testzip, packed header) spins forever",
@@ -780,6 +825,7 @@ def run(ctx: Ctx) -> None:
     shared.strict_reads(ctx, "R05.6")
     from . import c20
     c20.r20_1(ctx, rule="R05.7")
+    c20.r20_3(ctx)  # the packed header is decoded in bounded steps: its declared size, not its decoded size, limits the buffer
     r05_4(ctx)
     closure = read_closure(ctx)
     ctx.extra["closure_size"] = len(closure)
